@@ -8,11 +8,33 @@ ARCHER = "/usr/lib/llvm-14/lib/libarcher.so"
 
 
 def program(rnd):
-    d = p_C20.program(rnd)
+    d = p_C20.program(rnd, atomic_p=0.8)
     # bias: several outer iterations (they are what OpenMP distributes), heavy @exclusive / @shared / @atomic use
     d["NO0"] = max(d["NO0"], rnd.choice([3, 4, 6, 9]))
     d["sibling"] = rnd.choice([None, None, "plain", "tile"])
+    # general @atomic forms (plain assignment that reads its target, one- and two-statement blocks): OpenMP must make them critical
+    # sections; the GPU back ends reject them ("Unable to transform general @atomic code"), which is why only C21 generates them
+    # family: 0 = basic forms only (+=, -=), 1 = general forms only, 2 = free mix (known finding atomic-critical-mix: OCCA protects the
+    # basic forms with `omp atomic` and the general ones with `omp critical`, which do not exclude each other)
+    if d["atomic"]:
+        for ph in d["phases"]:
+            if rnd.random() < 0.5 and not any(s[0] == "atomic" for s in ph["stm"]):
+                ph["stm"].append(("atomic", rnd.choice(["+=", "-="]), "(%s) %% %d" % (rnd.choice(["g", "li"]), p_C20.CN),
+                                  "((g + %d) & 7)" % rnd.randint(0, 5), rnd.random() < 0.5))
+    family = rnd.choice([0, 1, 1, 2, 2])
+    for ph in d["phases"]:
+        for i, s in enumerate(ph["stm"]):
+            if s[0] == "atomic" and (family == 1 or (family == 2 and rnd.random() < 0.5)):
+                ph["stm"][i] = (s[0], rnd.choice(GENERAL)) + tuple(s[2:])
     return d
+
+
+GENERAL = ["=+", "{=+}", "{2}"]
+
+
+def atomic_forms(d):
+    ops = {s[1] for ph in d["phases"] for s in ph["stm"] if s[0] == "atomic"} if d.get("atomic") else set()
+    return bool(ops - set(GENERAL)), bool(ops & set(GENERAL))
 
 
 def nontrivial(d):
@@ -28,7 +50,7 @@ class C21Spec(p_C20.C20Spec):
     nontrivial = staticmethod(nontrivial)
     sanitize_bounds = False
     rule = ("case = OKL kernel from the C20 AST generator with >= 3 @outer iterations (nested outer, @exclusive, @shared, @atomic with heavy "
-            "collisions on a 7-cell counter array, sibling nests).  The OpenMP translation is compiled with g++ -fopenmp and run with "
+            "collisions on a 7-cell counter array: `+=`/`-=`, plain assignments that read their target, one- and two-statement @atomic blocks; sibling nests).  The OpenMP translation is compiled with g++ -fopenmp and run with "
             "OMP_NUM_THREADS in {1,2,3,4,7,8,16}, OMP_DYNAMIC off/on and OMP_SCHEDULE static/dynamic/guided with several chunk sizes (honoured by "
             "schedule(runtime) regions only; OCCA emits a plain parallel-for whose partition is the run time's default static one), 3 repetitions "
             "of the whole batch: every output array must equal the sequential reading (which the Serial translation must equal too).  The same "
@@ -56,8 +78,16 @@ class C21Spec(p_C20.C20Spec):
                                                       "TSAN_OPTIONS": "ignore_noninstrumented_modules=1 halt_on_error=0 exitcode=0"}))
         return v
 
+    def known_class(self, desc, known_ids):
+        # generator-level exclusion of a listed finding: kernels that use both a basic and a general @atomic form (their counter
+        # cells overlap: 7 cells, indices derived from the work-item ids)
+        if "atomic-critical-mix" in known_ids and all(atomic_forms(desc)):
+            return "atomic-critical-mix"
+        return None
+
     def classes(self, d):
-        return p_C20.C20Spec.classes(self, d) + ["outer-iterations:%d" % (d["NO0"] * d["NO1"])]
+        gen = sorted({"atomic-form:" + s[1] for ph in d["phases"] for s in ph["stm"] if s[0] == "atomic"}) if d["atomic"] else []
+        return p_C20.C20Spec.classes(self, d) + ["outer-iterations:%d" % (d["NO0"] * d["NO1"])] + gen
 
 
 REGISTRY["C21"] = lambda prop, tier, replay, t0: v_okl.run_tv(C21Spec(), prop, tier, replay, t0)
